@@ -42,7 +42,7 @@ def run(ctx):
     chain_schema = U.schema_terms(impl, [fixed_schemas[1]])[0]
     for n in (1, 2, 5, 40):
         pairs += [(chain_schema, G.chain_doc(n)), (chain_schema, G.chain_doc(n, cyclic=True)), (None, G.chain_doc(n, cyclic=True))]
-    n_s, per = (60, 40) if quick else (600, 80)
+    n_s, per = (120, 50) if quick else (600, 80)
     entries, gen = U.gen_pairs(ctx, impl, n_s, per, [0.0, 0.03, 0.08, 0.15, 0.0, 0.3])
     pairs += gen
     cases, dropped = U.make_cases(impl, pairs)
